@@ -182,6 +182,17 @@ def check(case, rec=None):
             ds1 = float(u.ds(list(hk)))
     nrefl = 0
     nband = 0
+    # another object in the same process: same cell, same limit, another centring (two phases / settings of one
+    # lattice) - what it computed must not leak into this one, nor the other way round (checked after the history)
+    other = CENTRINGS[(CENTRINGS.index(sym) + 1 + int(cell[0] * 1000) % (len(CENTRINGS) - 1)) % len(CENTRINGS)]
+    ok, uo = guard(unitcell.unitcell, cell, other)
+    if ok:
+        ok, pk = guard(uo.gethkls, ds1)
+        if ok:
+            f, n, nb = check_list(pk, cell, other, ds1, "gethkls of a %s cell made before the %s cell" % (other, sym))
+            fails += f
+        else:
+            fails.append(exc_failure("gethkls", pk))
     # history: limit 1, limit 2, limit 1 again on the same object, then rings
     for step, d in enumerate((ds1, ds2, ds1)):
         ok, peaks = guard(u.gethkls, d)
@@ -191,6 +202,11 @@ def check(case, rec=None):
         fails += f
         nrefl = max(nrefl, n)
         nband += nb
+    if isinstance(uo, unitcell.unitcell) and not fails:
+        ok, pk = guard(unitcell.unitcell(cell, other).gethkls, ds1)
+        if ok:
+            f, n, nb = check_list(pk, cell, other, ds1, "gethkls of a %s cell made after the %s cell" % (other, sym))
+            fails += f
     tol = case["tol"]
     ok, e = guard(u.makerings, ds2, tol)
     if not ok:
